@@ -60,6 +60,10 @@ class Engine(BaseEngine):
                     nx = {'"': '"', "\\": "\\", "\n": "\n", "\x01": "\x01"}[nxt]
                     text = "a" * pad + mb + nx + "z"
                     out.append(("block-boundary", "sign n:1 n:1000 %s %s %s" % (C.ttags([[b"t", text.encode()]]), C.tb(("q" + text).encode()), C.tb(sk))))
+        # contents (and a tag string) beyond every 16-bit length: the length field of the content is 32 bits wide
+        for n in ([65535, 65536, 70001] if tier == "quick" else [65534, 65535, 65536, 65537, 70001, 131072, 200000]):
+            out.append(("large-content", "sign n:1 n:1000 %s %s %s" % (C.ttags([[b"t", b"x"]]), C.tb(bytes([97 + n % 7]) * n), C.tb(sk))))
+        out.append(("large-content", "sign n:1 n:1000 %s %s %s" % (C.ttags([[b"t", b"y" * 60000]]), C.tb(b"z" * 66000), C.tb(sk))))
         for js in fixtures():
             out.append(("fixture", "verifyjson " + C.tb(js)))
             i = js.find(b'"content":"') + 11
@@ -90,7 +94,7 @@ class Engine(BaseEngine):
         m = C.kv(model_out)
         if o.endswith("impl=panic") or "r" not in i:
             return Verdict(oracle_ok=False, cls="panics", detail=o[:80], outcome="panic")
-        if gcls in ("signed", "char", "block-boundary"):
+        if gcls in ("signed", "char", "block-boundary", "large-content"):
             if i["r"] != "ok":
                 return Verdict(oracle_ok=False, cls="sign-fails", detail="sign_new failed: %s" % i["r"], outcome="err")
             if i["verify"] != "true":
